@@ -233,14 +233,17 @@ def run_single(case):
       return bad("algebra:unary:%s" % name, "unary operator wrong", exp[:4], run_sig(h, x)[:4], nt)
   # powers: f applied n times
   cur = list(x)
-  for n in range(0, 4):
-    h = mk(fs) ** n
-    got = run_sig(h, x)
-    if not eqs(got, cur):
-      return bad("algebra:pow", "f**n is not f applied n times", {"n": n, "y": cur[:4]}, got[:4], nt)
+  for n in range(0, 10):
+    h = mkF(fs) ** n if n >= 4 else mk(fs) ** n       # larger exponents: exact Fractions, polynomials only
+    if n < 4:
+      got = run_sig(h, x)
+      if not eqs(got, cur):
+        return bad("algebra:pow", "f**n is not f applied n times", {"n": n, "y": cur[:4]}, got[:4], nt)
+      cur = run_sig(mk(fs), cur)
     if not lib_rf(h).same(rF ** n):
       return bad("algebra:pow:polys", "f**n polynomials differ from the n-fold product", n, str(h), nt)
-    cur = run_sig(mk(fs), cur)
+    if n >= 2 and F(fs[0][0]) != 0 and not lib_rf(mkF(fs) ** -n).same((rF ** n).inv()):
+      return bad("algebra:pow:negative", "f**-n is not the reciprocal of the n-fold product", n, str(mkF(fs) ** -n), nt)
   if F(fs[0][0]) != 0:
     inv = mk(fs) ** -1
     got = run_sig(inv, yf)
@@ -604,6 +607,63 @@ def run_linearize(case):
   return R(None, th != 0, (where, th != 0))
 
 
+# ------------------------------------------- exactness through every operator
+BIG = 2 ** 60 + 1
+
+
+def exact_cases():
+  """(name, builder of the library filter, exact numerator, exact denominator as {delay: Fraction})."""
+  T = OrderedDict()
+  f = lambda: 1 + BIG * z ** -1
+  T["(f/z^-1)*z^-1"] = (lambda: (f() / z ** -1) * z ** -1, {0: 1, 1: BIG}, {0: 1})
+  T["ZFilter(b,[0,1])*z^-1"] = (lambda: ZFilter([1, BIG], [0, 1]) * z ** -1, {0: 1, 1: BIG}, {0: 1})
+  T["f*z/z"] = (lambda: f() * z / z, {0: 1, 1: BIG}, {0: 1})
+  T["f+f-f"] = (lambda: f() + f() - f(), {0: 1, 1: BIG}, {0: 1})
+  T["f*3*Fraction(1,3)"] = (lambda: f() * 3 * F(1, 3), {0: 1, 1: BIG}, {0: 1})      # (f / 3 is a true division: float by design)
+  T["(g/z^-1*z^-1)*(1/3+z^-1)"] = (lambda: ((1 + z ** -1) / z ** -1 * z ** -1) * (F(1, 3) + z ** -1),
+                                   {0: F(1, 3), 1: F(4, 3), 2: 1}, {0: 1})
+  T["(1/3+z^-1)/(z^-2)*z^-2"] = (lambda: (F(1, 3) + z ** -1) / z ** -2 * z ** -2, {0: F(1, 3), 1: 1}, {0: 1})
+  T["ZFilter([1/3,1],[0,0,2])*2z^-2"] = (lambda: ZFilter([F(1, 3), 1], [0, 0, 2]) * (2 * z ** -2), {0: F(1, 3), 1: 1}, {0: 1})
+  T["f**2"] = (lambda: f() ** 2, {0: 1, 1: 2 * BIG, 2: BIG * BIG}, {0: 1})
+  T["f(z^2)"] = (lambda: f()(z ** 2), {0: 1, 2: BIG}, {0: 1})
+  T["cascade(f, z^-1)"] = (lambda: CascadeFilter(f(), z ** -1), {1: 1, 2: BIG}, {0: 1})
+  T["parallel(f, f)"] = (lambda: ParallelFilter(f(), f()), {0: 2, 1: 2 * BIG}, {0: 1})
+  return T
+
+
+def gen_exact(run):
+  for name in exact_cases():
+    yield (name,)
+
+
+def run_exact(case):
+  """Exact coefficients (ints beyond 2**53, non-dyadic Fractions) stay exact through the operators, the
+  delay normalisation included: the polynomials equal the reference as rational numbers, and integer
+  input gives the exact integer output."""
+  name = case[0]
+  build, num, den = exact_cases()[name]
+  try:
+    h = build()
+    got = RF({k: F(v) for k, v in h.numpoly.terms()}, {k: F(v) for k, v in h.denpoly.terms()})
+  except Exception as exc:
+    return bad("exact:exception:" + type(exc).__name__, "%s raised" % name, None, str(exc)[:200], True)
+  want = RF({k: F(v) for k, v in num.items()}, {k: F(v) for k, v in den.items()})
+  if not got.same(want):
+    return bad("exact:polys", "%s: coefficients were rounded (exact ints / Fractions must stay exact)" % name,
+               {"num": {k: str(v) for k, v in want.num.items()}}, {"num": str(h.numpoly), "den": str(h.denpoly)}, True)
+  if all(F(v).denominator == 1 for v in list(num.values()) + list(den.values())):
+    x = [3, -1, 4, 1, -5, 9]
+    y = [sum(c * (x[n - k] if n - k >= 0 else 0) for k, c in num.items()) for n in range(len(x))]
+    try:
+      out = list(build()(list(x), zero=0))
+    except Exception as exc:
+      return bad("exact:exception:" + type(exc).__name__, "%s raised when run" % name, None, str(exc)[:200], True)
+    if out != y:
+      return bad("exact:signal", "%s: integer input through integer coefficients must give the exact integer output" % name,
+                 [str(v) for v in y], [str(v) for v in out], True)
+  return R(None, True, name)
+
+
 KINDS = OrderedDict([
   ("pairs", Kind(gen_pairs, run_pair, chunk=8, rule="ordered pairs of the signal pool; + - * / on symbolic input")),
   ("single", Kind(gen_single, run_single, chunk=1, rule="scalars, unary, powers (incl. -1), delays per filter")),
@@ -612,4 +672,5 @@ KINDS = OrderedDict([
   ("trees", Kind(gen_trees, run_tree, chunk=50, rule="expression trees vs reference rational functions; non-trivial: depth >= 1")),
   ("equality", Kind(gen_equality, run_equality, chunk=500, rule="all pairs of (filter, construction route)")),
   ("linearize", Kind(gen_linearize, run_linearize, chunk=6, rule="fractional delays k+t; non-trivial: t != 0")),
+  ("exactness", Kind(gen_exact, run_exact, chunk=1, rule="expressions over filters with ints > 2**53 and non-dyadic Fractions, incl. the delay normalisation; exact comparison")),
 ])
